@@ -4,6 +4,7 @@ import Infretis.Lemmas.TemplateNow
 import Infretis.Lemmas.TemplateCp2k
 import Infretis.Lemmas.CodecFixed
 import Infretis.Lemmas.CodecLmp
+import Infretis.Lemmas.CodecBox
 /-!
 # C19 — configuration, trajectory and input-template codecs are lossless
 
@@ -593,5 +594,40 @@ example : decodeFrame (encodeFrame .little 4 exF ++ [9, 9]) = .ok (expectedHeade
   Infretis.Trr.trr_decode_endian_precision .little 4 exF Infretis.Trr.exF_ok [9, 9]
 
 end Trr
+
+/-! ## 6. box matrices: `box_matrix_to_list` (TRR → g96, CP2K cell vectors)
+
+The nine box numbers follow the .g96 convention `xx yy zz xy xz yx yz zx zy` (first letter =
+row of the matrix).  The code offers no inverse; `listToMatrix` is the specification's. -/
+section Box
+open Infretis.Box
+
+/-- **the fixed order**: with `full=True` (what `_extract_frame` and `_propagate_from` use) the
+    nine numbers are `m[0,0] m[1,1] m[2,2] m[0,1] m[0,2] m[1,0] m[1,2] m[2,0] m[2,1]` -/
+theorem box_component_order (m : M3) :
+    boxMatrixToList m true = [m.xx, m.yy, m.zz, m.xy, m.xz, m.yx, m.yz, m.zx, m.zy] :=
+  Infretis.Box.boxMatrixToList_full m
+
+/-- **round trip matrix ↔ list for every box shape** (triclinic included): the matrix is
+    recovered from its nine numbers, and every nine numbers are the flattening of one matrix -/
+theorem box_list_matrix_roundtrip (m : M3) (l : List Int) (h : l.length = 9) :
+    listToMatrix (boxMatrixToList m true) = some m ∧
+    ∃ m', listToMatrix l = some m' ∧ boxMatrixToList m' true = l := by
+  refine ⟨by rw [Infretis.Box.boxMatrixToList_full]; exact Infretis.Box.listToMatrix_g96Order m, ?_⟩
+  obtain ⟨m', a, b⟩ := Infretis.Box.g96Order_listToMatrix l h
+  exact ⟨m', a, by rw [Infretis.Box.boxMatrixToList_full]; exact b⟩
+
+/-- without `full`: a rectangular box gives its three lengths, a matrix with more than three
+    non-zero entries (every non-degenerate triclinic cell) its nine numbers in the same order -/
+theorem box_short_and_long (a b c : Int) (m : M3) (hm : 3 < countNonzero m) :
+    boxMatrixToList ⟨a, 0, 0, 0, b, 0, 0, 0, c⟩ false = [a, b, c] ∧
+    boxMatrixToList m false = [m.xx, m.yy, m.zz, m.xy, m.xz, m.yx, m.yz, m.zx, m.zy] :=
+  ⟨(Infretis.Box.short_diag a b c).1, Infretis.Box.long_of_nonzero m false hm⟩
+
+example : boxMatrixToList ⟨1, 2, 3, 4, 5, 6, 7, 8, 9⟩ true = [1, 5, 9, 2, 3, 4, 6, 7, 8] ∧
+    cellABC (10, 0, 0) (2, 11, 0) (3, 4, 12) = [10, 11, 12, 2, 3, 0, 4, 0, 0] ∧
+    3 < countNonzero ⟨10, 2, 3, 0, 11, 4, 0, 0, 12⟩ := by decide
+
+end Box
 
 end Infretis.C19
